@@ -97,6 +97,18 @@ def _templates(ctx, rng):
                            ['T', 'T', [[rng.choice(['+', '-', '*', '/', '%', ':']), rng.randint(1, 3)]]]]],
         lambda: ['tuple', [['Val', {'t': 'dict', 'v': [['x', {'t': 'simnum', 'n': n(), 'v': 2}]]}],
                            ['Coalesce', [['T', 'T', [['[', 'x'], [':', 2], ['-', 1]]]], {'default': 'arith-default'}]]],
+        # M-expressions compare the target: what its comparison operator raises is the caller's
+        lambda: ['tuple', [['Val', {'t': 'simnum', 'n': n(), 'v': rng.randint(1, 9)}],
+                           ['Match', ['M', 'M', rng.choice(['<', '>', '<=', '>=']), 5]]]],
+        lambda: ['tuple', [['Val', {'t': 'simnum', 'n': n(), 'v': rng.randint(1, 9)}],
+                           ['Or', [['M', 'M', rng.choice(['<', '>']), 5], P('tok')]]]],
+        lambda: ['tuple', [['Val', {'t': 'simnum', 'n': n(), 'v': rng.randint(1, 9)}],
+                           ['Switch', [[['M', 'M', '>', 3], P()], [['T', 'T', []], P('tok')]], {'default': 'sd'}]]],
+        # Invoke with star arguments computed by a spec
+        lambda: ['Invoke', ['fn', 'argpack'], [['*', ['probe', ctx.new_pid(), 'const', {'t': 'list', 'v': [1, 2]}], None],
+                                               ['C', [3], {}]]],
+        lambda: ['Invoke', ['fn', 'argpack'], [['C', [0], {}],
+                                               ['*', None, ['probe', ctx.new_pid(), 'const', {'t': 'dict', 'v': [['a', 1]]}]]]],
     ]
     return rng.choice(t)()
 
@@ -271,8 +283,7 @@ def eval_plan(G, item, plan, variants, stats):
                           'no translation at this site', type(o).__name__)
                     elif o is not inj_a and canon.canon_exc(o) == canon.canon_exc(inj_a):
                         V('debug-identity', f'{kind}/{xname}', 'the original exception object', 'an equal copy')
-                    elif o is not inj_a and (o.__context__ is inj_a or o.__cause__ is inj_a) \
-                            and not isinstance(o, type(inj_a)):
+                    elif o is not inj_a and (o.__context__ is inj_a or o.__cause__ is inj_a):
                         # glom_debug=True: another exception was raised from the handler of the injected
                         # one at a site where glom documents no translation
                         V('documented-subtype', f'{kind}/{xname}/replaced-by-{type(o).__name__}',
